@@ -9,8 +9,9 @@ n=0
 for box in 1 2 3; do
   ( i=0; while read -r d; do i=$((i+1)); [ $(( i % 3 )) -eq $(( box % 3 )) ] || continue
       name=$(basename "$d"); prop=$(python3 -c "import json,sys;print(json.load(open('$d/meta.json'))['property'])")
-      if ! git -C /repo apply --check "/verif/$d/patch.diff" 2>/dev/null; then echo "$name $prop STALE-PATCH" >> $out/box$box.res; continue; fi
-      MUTBOX=/tmp/mutr$box timeout 2400 tools/mutbox.sh "/verif/$d/patch.diff" "$prop" > $out/$name.log 2>&1
+      pf="/verif/$d/patch.diff"; [ -f "/verif/$d/patch.rebased.diff" ] && pf="/verif/$d/patch.rebased.diff"     # re-diffed after later fix: commits
+      if ! git -C /repo apply --check "$pf" 2>/dev/null; then echo "$name $prop STALE-PATCH" >> $out/box$box.res; continue; fi
+      MUTBOX=/tmp/mutr$box timeout 2400 tools/mutbox.sh "$pf" "$prop" > $out/$name.log 2>&1
       echo "$name $prop $(grep -m1 -E "^$prop exit=" $out/$name.log)" >> $out/box$box.res
     done < $out/list ) &
 done
